@@ -260,7 +260,7 @@ def _shrink(acc, tier, budget):
 def plan(tier):
     mix = ["gen", "plan", "adv", "soup", "gen", "adv", "plan", "gen"]
     if tier == "quick":
-        return [{"kind": k, "i": i, "n": 520} for i, k in enumerate(mix)]
+        return [{"kind": k, "i": i, "n": 800} for i, k in enumerate(mix)]
     shards = []
     for rep in range(6):
         shards += [{"kind": k, "i": rep * 8 + i, "n": 8500} for i, k in enumerate(mix)]
@@ -270,7 +270,7 @@ def plan(tier):
 def work(shard, seed, tier):
     acc = Acc()
     kind = shard["kind"]
-    budget = Budget(45 if tier == "quick" else 540)
+    budget = Budget(240 if tier == "quick" else 1500)
     strat = st.tuples(st.just(kind), st.sampled_from([0, 0, 1, 1, 2, 3, 4]),
                       st.sampled_from([0.0, 0.03, 0.1, 0.3]), st.integers(0, 2 ** 62))
 
